@@ -39,6 +39,20 @@ def tweak(rng, sc):
         else:
             ann["delete-slots"] = slots
         st["ann"] = ann or None
+    if rng.random() < 0.12 and sc["api"].get("set") and sc["cache"].get("set"):
+        # any population of pods: a member at the edge of the ordinal range (the highest int32, and its neighbour), healthy or
+        # not — somebody created a pod with that name and the set's labels; it is outside every desired range
+        sname = sc["api"]["set"]["name"]
+        o = rng.choice([2147483647, 2147483647, 2147483646])
+        ref = next((p for p in sc["api"]["pods"] if p.get("owner")), None)
+        revn = ref["rev"] if ref else (sc["api"]["set"]["status"].get("currentRevision") or "")
+        cl = sc["api"]["set"].get("claims") or []
+        pod = rc.mkpod(o, revn, phase=rng.choice(["Running", "Running", "Pending"]), ready=rng.random() < 0.3, claims=cl,
+                       tmpl=(ref or {}).get("tmpl", 1), setname=sname)
+        if rng.random() < 0.2:
+            pod["owner"] = None
+        for w in (sc["api"], sc["cache"]):
+            w["pods"] = [p for p in w["pods"] if p["name"] != pod["name"]] + [dict(pod)]
     return sc
 
 
